@@ -197,6 +197,34 @@ func genCoreProgram(r *Rng) []byte {
 	depth := 0 // a lower bound of what is on the stack
 	push := func(w *big.Int) { a.push(w); depth++ }
 	small := func(n int) *big.Int { return big.NewInt(int64(r.Intn(n))) }
+	switch r.Intn(30) {
+	case 0:
+		// the stack filled to one below, exactly at, or one above its limit: a counted loop that
+		// leaves one more word per turn, then two or three more words and a store
+		turns := 1021 + r.Intn(2)
+		top := a.label()
+		a.pushN(int64(turns))
+		a.place(top)
+		a.op(0x80, 0x80, 0x01, 0x90) // DUP1 DUP1 ADD SWAP1
+		a.pushN(1)
+		a.op(0x90, 0x03, 0x80) // SWAP1 SUB DUP1
+		a.pushLabel(top)
+		a.op(0x57)
+		for j := 0; j < 1+r.Intn(2); j++ {
+			a.pushN(int64(1 + j))
+		}
+		a.pushN(7)
+		a.op(0x55) // SSTORE: visible only if the pushes fitted
+		a.op(0x00)
+		return a.finish()
+	case 1:
+		// a jump into the operand of a PUSH that holds code storing a value: must fail
+		pos := len(a.code) + 5
+		a.op(0x61, byte(pos>>8), byte(pos), 0x56)         // PUSH2 pos; JUMP
+		a.op(0x66, 0x5b, 0x60, 0x01, 0x60, 0x07, 0x55, 0x00) // PUSH7 <JUMPDEST PUSH1 1 PUSH1 7 SSTORE STOP>
+		a.op(0x00)
+		return a.finish()
+	}
 	n := 4 + r.Intn(22)
 	for i := 0; i < n; i++ {
 		switch k := r.Intn(40); {
